@@ -4,8 +4,10 @@
 //!   C19 gcrm lim=<L> stop=<0|1> root=0 g=<graph>   -> <out> map=… refs=… log=… path=…
 //!   C19 ic lim=<L> depth=<d> root=0 g=<graph>      -> <out> visited=… log=…
 //!   C19 hb lim=<L> root=0 g=<graph>                -> found=<l>|none
-//!   C19 validate lim=<L> root=0 g=<graph>          -> <out> log=…
-//!   C19 e2e lim=<L> root=0 g=<graph>               -> clean|flagged|err:<out>
+//!   C19 validate lim=<L> root=0 g=<graph>          -> <out> log=… scope=<a|i per log event>
+//!   C19 e2e lim=<L> root=0 [prerec=1] g=<graph>    -> clean|flagged|err:<out>
+//!     (prerec=1: every ingredient assertion naming a missing manifest pre-records the status
+//!      ingredient.manifest.missing for it, as validation_status (v2) or validationResults (v3))
 //! <graph> = node/node/… ; node = <update><hasHash><sigOk>:<ing>,<ing>… ;
 //! ing = <p|c><target|->[h]   (p = parentOf, h = hashed URI carries the target's real box hash)
 
@@ -14,7 +16,7 @@ use std::{collections::HashSet, time::Instant};
 use c2pa::{
     assertions::DataHash,
     status_tracker::{ErrorBehavior, StatusTracker},
-    verif_hooks::c19 as hk,
+    verif_hooks::{c19 as hk, c20 as hk20},
     ClaimGeneratorInfo, Context, EphemeralSigner, Error, HashedUri, Signer,
 };
 use vh::common::{guarded, main_with, Rng, Run};
@@ -45,6 +47,14 @@ fn hb_deep(n: usize) -> Graph {
     g
 }
 
+/// the accepted DAG of `dag_not_over_deep`: chain 0 → 1 → … → n-1, but the root lists every claim
+/// in reverse order first, so each claim is first reached at depth ≤ 2
+fn long_path_short_walk(n: usize) -> Graph {
+    let mut g = chain(n);
+    g[0].ings = (1..n).rev().map(|t| edge(0, t, n)).collect();
+    g
+}
+
 /// Run one walk in a child process on a thread with `kib` KiB of stack. A stack overflow aborts
 /// the child; that is an oracle failure (class `stack-overflow`), never a harness failure.
 fn probe(run: &mut Run, lim: usize, kind: &str, n: usize, kib: usize) {
@@ -58,6 +68,7 @@ fn probe(run: &mut Run, lim: usize, kind: &str, n: usize, kib: usize) {
     let (g, op) = match kind {
         "hb-deep" => (hb_deep(n), "validate"),
         "hb-deep-reader" => (hb_deep(n), "e2e"),
+        "flat-long-path" => (long_path_short_walk(n), "validate"),
         "e2e-chain" => (chain(n), "e2e"),
         _ => (chain(n), "validate"),
     };
@@ -67,10 +78,14 @@ fn probe(run: &mut Run, lim: usize, kind: &str, n: usize, kib: usize) {
     match reply {
         Some(r) if out.status.success() => {
             let f = facts(&g);
-            let fails = oracle(if op == "e2e" { &Op::E2e } else { &Op::Validate }, &g, &f, lim, &r);
+            let fails = oracle(if op == "e2e" { &Op::E2e { prerec: 0 } } else { &Op::Validate }, &g, &f, lim, &r);
+            let wrong = r == "flat-store-wrong";
             let idx = run.case(req, r);
             for (class, detail) in fails {
                 run.fail(idx, class, detail);
+            }
+            if wrong {
+                run.fail(idx, "flat-store-wrong", format!("{kind} with {n} claims: the extracted ingredient store of claim 1 does not hold exactly the claims 1..{}", n - 1));
             }
         }
         _ => {
@@ -97,12 +112,70 @@ fn probe_child(spec: &str) {
     let sig = fixed_signature();
     let g = match kind.as_str() {
         "hb-deep" | "hb-deep-gcrm" | "hb-deep-hb" | "hb-deep-reader" => hb_deep(n),
+        "flat-long-path" => long_path_short_walk(n),
         _ => chain(n),
     };
     let lim = hk::MAX_INGREDIENT_DEPTH;
     let mut env = Env { sig, ctx: Context::new(), lim, e2e: None };
     // everything that needs little stack happens here; only the walk runs on the small stack
-    let reply = if kind == "hb-deep-reader" {
+    let reply = if kind == "flat-long-path" {
+        // the store is accepted by the graph walkers (every claim is first reached at depth ≤ 2);
+        // reading happens on a big stack, only the extraction of claim 1's flat ingredient store
+        // (path 1 → 2 → … → n-1) runs on the small one
+        let store = build_store(&env, &g);
+        let jumbf = hk::store_to_jumbf(&store, 0).expect("jumbf");
+        let asset = std::fs::read(vh::common::fixtures().join("IMG_0003.jpg")).expect("fixture");
+        let reader = std::thread::scope(|sc| {
+            std::thread::Builder::new()
+                .stack_size(256 << 20)
+                .spawn_scoped(sc, || {
+                    c2pa::Reader::from_context(Context::new()).with_manifest_data_and_stream(
+                        &jumbf,
+                        "image/jpeg",
+                        std::io::Cursor::new(&asset),
+                    )
+                })
+                .expect("spawn")
+                .join()
+                .expect("read")
+        });
+        // the reply compared with the model is that of `verify_store` on the same store (the
+        // claims carry the harness signature, so the Reader's state itself is Invalid)
+        let state = std::thread::scope(|sc| {
+            std::thread::Builder::new()
+                .stack_size(256 << 20)
+                .spawn_scoped(sc, || run_validate(&env, &store))
+                .expect("spawn")
+                .join()
+                .expect("validate")
+        });
+        match reader {
+            Err(err) => format!("err:{}", err_class(&err).0),
+            Ok(r) => {
+                let r = &r;
+                let extracted = std::thread::scope(|sc| {
+                    std::thread::Builder::new()
+                        .stack_size(kib << 10)
+                        .spawn_scoped(sc, || {
+                            let mut sink = std::io::Cursor::new(Vec::new());
+                            r.resource_to_stream(&label(1), &mut sink).map(|_| sink.into_inner())
+                        })
+                        .expect("spawn")
+                        .join()
+                        .unwrap_or_else(|_| Err(Error::OtherError("panic".into())))
+                });
+                // the flat store of claim 1 holds exactly the claims 1 … n-1
+                let ok = match extracted {
+                    Ok(bytes) => {
+                        let mut log = StatusTracker::default();
+                        hk::store_from_jumbf(&bytes, &mut log, &Context::new()).map(|s| s.claims().len()).unwrap_or(0) == n - 1
+                    }
+                    Err(_) => false,
+                };
+                if ok { state } else { "flat-store-wrong".to_string() }
+            }
+        }
+    } else if kind == "hb-deep-reader" {
         // public API path: serialise the (unsigned-content) store and read it back
         let store = build_store(&env, &g);
         let jumbf = hk::store_to_jumbf(&store, 0).expect("jumbf");
@@ -130,7 +203,7 @@ fn probe_child(spec: &str) {
     } else if kind == "e2e-chain" {
         env.e2e = Some(E2e::new());
         let e = env.e2e.as_ref().unwrap();
-        let jumbf = e.build(&g).expect("build");
+        let jumbf = e.build(&g, 0).expect("build");
         std::thread::scope(|sc| {
             std::thread::Builder::new()
                 .stack_size(kib << 10)
@@ -293,27 +366,34 @@ fn err_class(e: &Error) -> (&'static str, Option<Vec<usize>>) {
 
 /// Canonical event list from a validation log: only the codes the walkers themselves emit.
 fn events(log: &StatusTracker) -> Vec<String> {
-    let mut out = vec![];
+    events_scoped(log).into_iter().map(|(e, _)| e).collect()
+}
+
+/// events with the scope they were logged in: `true` = an ingredient URI was on the tracker's
+/// stack (`push_ingredient_uri`), i.e. `ValidationResults::from_store` may filter the status
+fn events_scoped(log: &StatusTracker) -> Vec<(String, bool)> {
+    let mut out: Vec<(String, bool)> = vec![];
     for it in log.logged_items() {
+        let sc = it.ingredient_uri.is_some();
         let code = it.validation_status.as_deref().unwrap_or("");
         let n = node_of(&it.label).map(|n| n.to_string()).unwrap_or("?".into());
         // a failure code that was not logged as a failure is a different event
         let failure = matches!(it.kind, c2pa::status_tracker::LogKind::Failure);
         if !failure && code != "ingredient.manifest.validated" {
             if ["ingredient.manifest.missing", "ingredient.manifest.mismatch", "claim.hardBindings.missing"].contains(&code) {
-                out.push(format!("!{code}:{n}"));
+                out.push((format!("!{code}:{n}"), sc));
             }
             continue;
         }
         match code {
-            "ingredient.manifest.missing" => out.push(format!("M{n}")),
-            "ingredient.manifest.mismatch" => out.push(format!("H{n}")),
-            "ingredient.manifest.validated" => out.push(format!("G{n}")),
+            "ingredient.manifest.missing" => out.push((format!("M{n}"), sc)),
+            "ingredient.manifest.mismatch" => out.push((format!("H{n}"), sc)),
+            "ingredient.manifest.validated" => out.push((format!("G{n}"), sc)),
             // `verify_internal` logs this once per `verify_claim` (the harness signature never
             // matches); the unlabelled item of a failed COSE parse is not a completed verify
-            "claimSignature.mismatch" if n != "?" => out.push(format!("V{n}")),
-            "claim.hardBindings.missing" => out.push(format!("B{n}")),
-            "assertion.ingredient.malformed" if it.description.contains("cyclic") => out.push(format!("C{n}")),
+            "claimSignature.mismatch" if n != "?" => out.push((format!("V{n}"), sc)),
+            "claim.hardBindings.missing" => out.push((format!("B{n}"), sc)),
+            "assertion.ingredient.malformed" if it.description.contains("cyclic") => out.push((format!("C{n}"), sc)),
             _ => {}
         }
     }
@@ -393,7 +473,13 @@ fn run_validate(env: &Env, store: &hk::Store) -> String {
         Ok(()) => "ok",
         Err(e) => err_class(e).0,
     };
-    format!("{out} log={}", list(&events(&log)))
+    let ev = events_scoped(&log);
+    let scope: String = ev.iter().map(|(_, sc)| if *sc { 'i' } else { 'a' }).collect();
+    format!(
+        "{out} log={} scope={}",
+        list(&ev.iter().map(|(e, _)| e.clone()).collect::<Vec<_>>()),
+        if scope.is_empty() { "-".to_string() } else { scope }
+    )
 }
 
 
@@ -412,6 +498,15 @@ struct Facts {
     dangling: Vec<usize>,
     /// number of distinct claims on the walk 0 → first ingredient → first ingredient …
     head_chain: usize,
+    /// number of ingredient assertions of reachable claims that name a missing manifest
+    dangling_edges: usize,
+    /// number of ingredient assertions of reachable claims that name an existing claim
+    reach_edges: usize,
+    /// the distinct (target, referencing claim) pairs of those
+    ref_pairs: Vec<(usize, usize)>,
+    /// largest breadth-first distance (in edges) from node 0 to a reachable claim: some claim is
+    /// *over-deep* — every path from the root to it has at least `lim` edges — iff this is ≥ lim
+    max_dist: usize,
 }
 
 fn facts(g: &Graph) -> Facts {
@@ -478,7 +573,44 @@ fn facts(g: &Graph) -> Facts {
             _ => break,
         }
     }
-    Facts { reach, edges, cyc, dangling, head_chain }
+    let mut dangling_edges = 0;
+    let mut reach_edges = 0;
+    let mut ref_pairs = vec![];
+    for u in 0..n {
+        if !reach[u] {
+            continue;
+        }
+        for i in &g[u].ings {
+            match i.target {
+                Some(t) if t < n => {
+                    reach_edges += 1;
+                    ref_pairs.push((t, u));
+                }
+                Some(_) => dangling_edges += 1,
+                None => {}
+            }
+        }
+    }
+    ref_pairs.sort();
+    ref_pairs.dedup();
+    let mut dist = vec![usize::MAX; n];
+    let mut queue = std::collections::VecDeque::new();
+    if n > 0 {
+        dist[0] = 0;
+        queue.push_back(0usize);
+    }
+    while let Some(u) = queue.pop_front() {
+        for i in &g[u].ings {
+            if let Some(t) = i.target {
+                if t < n && dist[t] == usize::MAX {
+                    dist[t] = dist[u] + 1;
+                    queue.push_back(t);
+                }
+            }
+        }
+    }
+    let max_dist = dist.iter().filter(|d| **d != usize::MAX).max().copied().unwrap_or(0);
+    Facts { reach, edges, cyc, dangling, head_chain, dangling_edges, reach_edges, ref_pairs, max_dist }
 }
 
 // ---------------------------------------------------------------------------------------
@@ -491,8 +623,11 @@ enum Op {
     Ic { depth: usize },
     Hb,
     Validate,
-    /// really signed store, serialised, read back through `Reader`
-    E2e,
+    /// really signed store, serialised, read back through `Reader`. `prerec`: 0 = plain v2
+    /// ingredient assertions; 2 / 3 = every ingredient assertion naming a missing manifest
+    /// pre-records `ingredient.manifest.missing` for it, as `validation_status` of a v2
+    /// assertion / as `validationResults` of a v3 assertion
+    E2e { prerec: u8 },
 }
 
 #[derive(Clone)]
@@ -526,7 +661,11 @@ fn oracle(op: &Op, g: &Graph, f: &Facts, lim: usize, reply: &str) -> Vec<(&'stat
     let out = reply.split(' ').next().unwrap_or("");
     let log = field(reply, "log");
     let rejected = out != "ok";
+    // a linear chain of more than `lim` claims on the first-ingredient spine: the depth error
     let over = f.head_chain > lim;
+    // the general notion: some reachable claim has no path of fewer than `lim` edges from the
+    // root (wherever the long paths hang, whatever the labels): never Ok
+    let over_all = f.max_dist >= lim;
     match op {
         Op::Gcrm { stop } => {
             if f.cyc && !(out == "cyclic" || out == "too-deep" || (*stop && out == "missing")) {
@@ -535,7 +674,22 @@ fn oracle(op: &Op, g: &Graph, f: &Facts, lim: usize, reply: &str) -> Vec<(&'stat
             if over && out != "too-deep" && !(*stop && out == "missing") {
                 fails.push(("deep-chain-accepted", format!("head chain of {} claims (limit {lim}) but outcome {out}", f.head_chain)));
             }
+            if over_all && !(out == "too-deep" || (f.cyc && out == "cyclic") || (*stop && out == "missing")) {
+                fails.push(("over-deep-accepted", format!("a claim at distance {} from the root (limit {lim}) but outcome {out}", f.max_dist)));
+            }
             if out == "ok" {
+                // exact step counts of a completed walk: every reachable claim is expanded once,
+                // so each dangling reference is logged exactly once (a re-expansion regression
+                // shows up here, not only in the wall clock) and nothing else is logged
+                let m = log.iter().filter(|e| e.starts_with('M')).count();
+                if m != f.dangling_edges || log.len() != f.dangling_edges {
+                    fails.push(("steps-exceed-bound", format!("{m} missing-manifest items / {} log items for {} dangling references of reachable claims", log.len(), f.dangling_edges)));
+                }
+                let want: Vec<String> = f.ref_pairs.iter().map(|(a, b)| format!("{a}<{b}")).collect();
+                let got: Vec<String> = field(reply, "refs").iter().map(|s| s.to_string()).collect();
+                if want != got {
+                    fails.push(("references-not-edge-set", format!("ingredient_references {got:?} differ from the edges of the reachable claims {want:?}")));
+                }
                 for d in &f.dangling {
                     if !log.contains(&format!("M{d}").as_str()) {
                         fails.push(("dangling-not-logged", format!("missing manifest {d} not logged")));
@@ -552,14 +706,21 @@ fn oracle(op: &Op, g: &Graph, f: &Facts, lim: usize, reply: &str) -> Vec<(&'stat
                     fails.push(("dangling-accepted", "StopOnFirstError log but Ok with a missing manifest".into()));
                 }
             }
-            if field(reply, "refs").len() > f.edges || log.len() > f.edges {
-                fails.push(("steps-exceed-bound", format!("{} references / {} log items for {} edges", field(reply, "refs").len(), log.len(), f.edges)));
+            if log.len() > f.edges {
+                fails.push(("steps-exceed-bound", format!("{} log items for {} edges", log.len(), f.edges)));
             }
         }
         Op::Ic { .. } => {
             let v = log.iter().filter(|e| e.starts_with('V')).count();
             if v > f.edges || log.len() > 2 * f.edges {
                 fails.push(("steps-exceed-bound", format!("{v} verify_claim calls for {} edges", f.edges)));
+            }
+            if out == "ok" {
+                // a completed walk looks every reference of every reachable claim up exactly once
+                let m = log.iter().filter(|e| e.starts_with('M')).count();
+                if v != f.reach_edges || m != f.dangling_edges {
+                    fails.push(("steps-exceed-bound", format!("{v} verify_claim calls / {m} missing-manifest items for {} references to claims / {} dangling references of reachable claims", f.reach_edges, f.dangling_edges)));
+                }
             }
             if !["ok", "too-deep", "verify-failed"].contains(&out) {
                 fails.push(("unexpected-outcome", format!("ingredient_checks returned {out}")));
@@ -573,10 +734,13 @@ fn oracle(op: &Op, g: &Graph, f: &Facts, lim: usize, reply: &str) -> Vec<(&'stat
                 }
             }
         }
-        Op::E2e => {
+        Op::E2e { .. } => {
             // the statement itself: a cyclic, dangling or over-deep graph is never reported Valid
-            if reply == "clean" && (f.cyc || !f.dangling.is_empty() || over) {
-                fails.push(("malformed-reported-valid", format!("Reader reports Valid/Trusted for a graph with cycle={} dangling={:?} head_chain={}", f.cyc, f.dangling, f.head_chain)));
+            if reply == "clean" && (f.cyc || !f.dangling.is_empty() || over || over_all) {
+                fails.push(("malformed-reported-valid", format!("Reader reports Valid/Trusted for a graph with cycle={} dangling={:?} head_chain={} max_dist={}", f.cyc, f.dangling, f.head_chain, f.max_dist)));
+            }
+            if over_all && !(reply == "err:too-deep" || (f.cyc && reply == "err:cyclic")) {
+                fails.push(("over-deep-accepted", format!("a claim at distance {} from the root (limit {lim}) but Reader gives {reply}", f.max_dist)));
             }
             if f.cyc && !(reply == "err:cyclic" || reply == "err:too-deep") {
                 fails.push(("cycle-accepted", format!("reachable cycle but Reader gives {reply}")));
@@ -592,14 +756,27 @@ fn oracle(op: &Op, g: &Graph, f: &Facts, lim: usize, reply: &str) -> Vec<(&'stat
             if over && out != "too-deep" {
                 fails.push(("deep-chain-accepted", format!("head chain of {} claims (limit {lim}) but outcome {out}", f.head_chain)));
             }
+            if over_all && !(out == "too-deep" || (f.cyc && out == "cyclic")) {
+                fails.push(("over-deep-accepted", format!("a claim at distance {} from the root (limit {lim}) but outcome {out}", f.max_dist)));
+            }
             if !rejected {
+                // the failure that keeps a dangling graph Invalid must be logged in the scope of
+                // the active claim: only such a status is exempt from the from_store filter
+                let scope = field(reply, "scope").first().copied().unwrap_or("");
+                for d in &f.dangling {
+                    let key = format!("M{d}");
+                    let active = log.iter().zip(scope.chars()).any(|(e, sc)| *e == key && sc == 'a');
+                    if !active {
+                        fails.push(("dangling-not-logged-in-active-scope", format!("missing manifest {d} is only logged with an ingredient URI (droppable by a pre-recorded status)")));
+                    }
+                }
                 for d in &f.dangling {
                     if !log.contains(&format!("M{d}").as_str()) {
                         fails.push(("dangling-not-logged", format!("missing manifest {d} not logged")));
                     }
                 }
                 let flagged = log.iter().any(|e| ["M", "H", "C", "B"].contains(&&e[..1]));
-                if !flagged && (f.cyc || !f.dangling.is_empty() || over) {
+                if !flagged && (f.cyc || !f.dangling.is_empty() || over || over_all) {
                     fails.push(("malformed-reported-clean", "cyclic/dangling/over-deep graph validated without a graph failure".into()));
                 }
             }
@@ -632,9 +809,9 @@ fn process(env: &Env, job: &Job) -> Vec<CaseOut> {
                 format!("C19 validate lim={} root=0 g={gs}", env.lim),
                 guarded(std::panic::AssertUnwindSafe(|| run_validate(env, &store))),
             ),
-            Op::E2e => (
-                format!("C19 e2e lim={} root=0 g={gs}", env.lim),
-                guarded(std::panic::AssertUnwindSafe(|| run_e2e(env, &job.g))),
+            Op::E2e { prerec } => (
+                format!("C19 e2e lim={} root=0{} g={gs}", env.lim, if *prerec > 0 { " prerec=1" } else { "" }),
+                guarded(std::panic::AssertUnwindSafe(|| run_e2e(env, &job.g, *prerec))),
             ),
         };
         let ms = t.elapsed().as_secs_f64() * 1e3;
@@ -666,7 +843,7 @@ fn spawn_worker(sig: Vec<u8>, lim: usize) -> Worker {
         .spawn(move || {
             let mut env = Env { sig, ctx: Context::new(), lim, e2e: None };
             while let Ok(job) = jrx.recv() {
-                if env.e2e.is_none() && job.ops.iter().any(|o| matches!(o, Op::E2e)) {
+                if env.e2e.is_none() && job.ops.iter().any(|o| matches!(o, Op::E2e { .. })) {
                     env.e2e = Some(E2e::new());
                 }
                 if rtx.send(process(&env, &job)).is_err() {
@@ -689,7 +866,7 @@ impl Exec {
     fn submit(&mut self, run: &mut Run, job: Job) {
         let f = facts(&job.g);
         let budget = std::time::Duration::from_millis(20_000 + 40 * (job.g.len() + f.edges) as u64);
-        let malformed = f.cyc || !f.dangling.is_empty() || f.head_chain > self.lim;
+        let malformed = f.cyc || !f.dangling.is_empty() || f.head_chain > self.lim || f.max_dist >= self.lim;
         run.count(&format!("graphs_{}", job.tag));
         run.count(if f.cyc { "graph_cyclic" } else { "graph_acyclic" });
         if !f.dangling.is_empty() {
@@ -697,6 +874,12 @@ impl Exec {
         }
         if f.head_chain > self.lim {
             run.count("graph_over_limit_chain");
+        }
+        if f.max_dist >= self.lim {
+            run.count("graph_over_deep_claim");
+            if f.head_chain <= self.lim {
+                run.count("graph_over_deep_claim_off_the_head_chain");
+            }
         }
         self.worker.tx.send(job.clone()).expect("worker alive");
         match self.worker.rx.recv_timeout(budget) {
@@ -859,6 +1042,89 @@ fn chain(n: usize) -> Graph {
     (0..n).map(|u| node(if u + 1 < n { vec![edge(u, u + 1, n)] } else { vec![] })).collect()
 }
 
+/// Relabel the claims by a random permutation that keeps the root at 0 (the walkers must not
+/// depend on labels being in path order). A hashed URI can only carry the target's real box hash
+/// when the target is committed first, i.e. has the larger index.
+fn permute(r: &mut Rng, g: &Graph) -> Graph {
+    let n = g.len();
+    let mut perm: Vec<usize> = (0..n).collect();
+    for i in (2..n).rev() {
+        let j = 1 + r.below(i as u64) as usize;
+        perm.swap(i, j);
+    }
+    let mut out: Graph = (0..n).map(|_| node(vec![])).collect();
+    for u in 0..n {
+        let mut nd = g[u].clone();
+        for i in nd.ings.iter_mut() {
+            if let Some(t) = i.target {
+                if t < n {
+                    i.target = Some(perm[t]);
+                    i.hash_ok = i.hash_ok && perm[t] > perm[u];
+                }
+            }
+        }
+        out[perm[u]] = nd;
+    }
+    out
+}
+
+/// The root lists `k` leaf ingredients first; a chain of `m` claims hangs off its ingredient
+/// number `k + 1`: the last claim of the chain is `m` edges away from the root.
+fn deep_off_branch(k: usize, m: usize) -> Graph {
+    let n = 1 + k + m;
+    let mut g: Graph = (0..n).map(|_| node(vec![])).collect();
+    for l in 1..=k {
+        g[0].ings.push(edge(0, l, n));
+    }
+    g[0].ings.push(edge(0, k + 1, n));
+    for j in 0..m.saturating_sub(1) {
+        let u = k + 1 + j;
+        g[u].ings.push(edge(u, u + 1, n));
+    }
+    g
+}
+
+/// A complete binary tree of depth `d` (ingredients in order left, right); a chain of `m` claims
+/// hangs off its last leaf: the end of the chain is `d + m` edges away from the root.
+fn deep_off_tree(d: usize, m: usize) -> Graph {
+    let tree = (1usize << (d + 1)) - 1;
+    let n = tree + m;
+    let mut g: Graph = (0..n).map(|_| node(vec![])).collect();
+    for u in 0..tree {
+        for c in [2 * u + 1, 2 * u + 2] {
+            if c < tree {
+                g[u].ings.push(edge(u, c, n));
+            }
+        }
+    }
+    let mut u = tree - 1;
+    for j in 0..m {
+        g[u].ings.push(edge(u, tree + j, n));
+        u = tree + j;
+    }
+    g
+}
+
+/// `levels` levels of two claims, each claim referencing both claims of the next level
+/// (2^levels paths to the bottom); with `dangling` the bottom claims reference a missing manifest.
+/// With the memo map / visited set every claim is expanded once: the exact step counts of the
+/// oracle (`steps-exceed-bound`) catch a re-expansion without waiting for the wall clock.
+fn ladder(levels: usize, dangling: bool) -> Graph {
+    let n = 1 + 2 * levels;
+    let mut g: Graph = (0..n).map(|_| node(vec![])).collect();
+    g[0].ings = vec![edge(0, 1, n), edge(0, 2, n)];
+    for l in 0..levels {
+        for u in [1 + 2 * l, 2 + 2 * l] {
+            if l + 1 < levels {
+                g[u].ings = vec![edge(u, 3 + 2 * l, n), edge(u, 4 + 2 * l, n)];
+            } else if dangling {
+                g[u].ings = vec![edge(u, n + 3, n)];
+            }
+        }
+    }
+    g
+}
+
 fn all_ops() -> Vec<Op> {
     vec![Op::Gcrm { stop: false }, Op::Gcrm { stop: true }, Op::Ic { depth: 0 }, Op::Hb, Op::Validate]
 }
@@ -930,6 +1196,26 @@ pub fn run(run: &mut Run, rng: &mut Rng) {
         g[0].ings = extra;
         ex.submit(run, Job { g, ops: all_ops(), tag: "dag_long_path_short_walk" });
     }
+    // over-deep claims that are not on the first-ingredient spine, with labels in path order and
+    // permuted: the depth test must fire on every branch
+    for m in lim.saturating_sub(2)..=lim + 2 {
+        for k in [1usize, 3] {
+            let g = deep_off_branch(k, m);
+            ex.submit(run, Job { g: permute(rng, &g), ops: all_ops(), tag: "deep_off_later_ingredient_permuted" });
+            ex.submit(run, Job { g, ops: all_ops(), tag: "deep_off_later_ingredient" });
+        }
+        if m >= 3 {
+            let g = deep_off_tree(3, m - 3);
+            ex.submit(run, Job { g: permute(rng, &g), ops: all_ops(), tag: "deep_off_tree_leaf_permuted" });
+            ex.submit(run, Job { g, ops: all_ops(), tag: "deep_off_tree_leaf" });
+        }
+        ex.submit(run, Job { g: permute(rng, &chain(m + 1)), ops: all_ops(), tag: "chain_permuted" });
+    }
+    // exponentially many paths, every claim expanded once
+    for levels in [3usize, 8, 12] {
+        ex.submit(run, Job { g: ladder(levels, false), ops: all_ops(), tag: "ladder" });
+        ex.submit(run, Job { g: ladder(levels, true), ops: all_ops(), tag: "ladder_dangling_bottom" });
+    }
     // ingredient_checks entered at depths around the limit
     for d in [lim.saturating_sub(2), lim - 1, lim, lim + 1] {
         for g in [chain(1), chain(2), chain(3)] {
@@ -959,7 +1245,8 @@ pub fn run(run: &mut Run, rng: &mut Rng) {
     ex.max_ms = 0.0;
 
     // 4. end to end: really signed stores through `Reader`
-    let e2e = |g: Graph, tag: &'static str| Job { g, ops: vec![Op::E2e], tag };
+    let e2e = |g: Graph, tag: &'static str| Job { g, ops: vec![Op::E2e { prerec: 0 }], tag };
+    let e2e_prerec = |g: Graph, tag: &'static str| Job { g, ops: vec![Op::E2e { prerec: 2 }, Op::E2e { prerec: 3 }], tag };
     for n in 1..=3 {
         for g in exhaustive(n, false) {
             ex.submit(run, e2e(g, "e2e_exhaustive"));
@@ -994,6 +1281,56 @@ pub fn run(run: &mut Run, rng: &mut Rng) {
         let mut g = chain(n);
         g[0].ings = (1..n).rev().map(|t| edge(0, t, n)).collect();
         ex.submit(run, e2e(g, "e2e_dag_long_path_short_walk"));
+    }
+    // over-deep off a later ingredient / a tree leaf, permuted labels, through the Reader
+    for m in [lim - 1, lim, lim + 1] {
+        ex.submit(run, e2e(deep_off_branch(2, m), "e2e_deep_off_later_ingredient"));
+        ex.submit(run, e2e(permute(rng, &deep_off_branch(1, m)), "e2e_deep_off_later_ingredient_permuted"));
+        if thorough {
+            ex.submit(run, e2e(permute(rng, &deep_off_tree(3, m - 3)), "e2e_deep_off_tree_leaf_permuted"));
+        }
+    }
+    ex.submit(run, e2e(ladder(8, true), "e2e_ladder_dangling_bottom"));
+    // the from_store filter: ingredient assertions that pre-record the failure the validator
+    // logs for them (missing manifest) must not make the report Valid
+    for n in 1..=(if thorough { 3 } else { 2 }) {
+        for g in exhaustive(n, true) {
+            if !facts(&g).dangling.is_empty() {
+                ex.submit(run, e2e_prerec(g, "e2e_prerecorded_exhaustive_dangling"));
+            }
+        }
+    }
+    {
+        let mut g = chain(5);
+        g[4].ings.push(edge(4, 9, 5));
+        ex.submit(run, e2e_prerec(g, "e2e_prerecorded_chain_dangling_end"));
+        let mut g = chain(3);
+        g[0].ings.insert(0, edge(0, 7, 3));
+        g[2].ings.push(edge(2, 7, 3));
+        ex.submit(run, e2e_prerec(g, "e2e_prerecorded_dangling_twice"));
+        // pre-recorded statuses do not turn the errors of a cyclic / over-deep graph into a report
+        let mut g = chain(4);
+        g[3].ings.push(edge(3, 1, 4));
+        g[2].ings.push(edge(2, 9, 4));
+        ex.submit(run, e2e_prerec(g, "e2e_prerecorded_cycle_and_dangling"));
+        let mut g = deep_off_branch(1, lim + 1);
+        let last = g.len() - 1;
+        g[last].ings.push(edge(last, last + 9, last + 1));
+        g[0].ings.push(edge(0, last + 9, last + 1));
+        ex.submit(run, e2e_prerec(g, "e2e_prerecorded_over_deep_and_dangling"));
+    }
+    for _ in 0..(if thorough { 40 } else { 8 }) {
+        let mut r = rng.fork();
+        let n = r.range(2, 25) as usize;
+        let (mut g, _) = random_graph(&mut r, n);
+        for u in 0..n {
+            g[u].sig_ok = true;
+            g[u].has_hash = true;
+            g[u].update = false;
+        }
+        let u = r.below(n as u64) as usize;
+        g[u].ings.push(edge(u, n + 1 + r.below(2) as usize, n));
+        ex.submit(run, e2e_prerec(g, "e2e_prerecorded_random"));
     }
     let n_e2e_random = if thorough { 160 } else { 30 };
     for k in 0..n_e2e_random {
@@ -1047,7 +1384,11 @@ pub fn run(run: &mut Run, rng: &mut Rng) {
     probe(run, lim, "e2e-chain", lim + 3, 2048);
     probe(run, lim, "hb-deep", 1000, 2048);
     probe(run, lim, "hb-deep-reader", 1000, 2048);
+    // on-demand extraction of an ingredient's manifest store (Store::build_flat_ingredient_store)
+    // from a claim of an accepted store whose longest path is far beyond the limit
+    probe(run, lim, "flat-long-path", 1500, 2048);
     if thorough {
+        probe(run, lim, "flat-long-path", 6000, 8192);
         probe(run, lim, "hb-deep", 5000, 2048);
         probe(run, lim, "hb-deep", 3000, 8192);
         probe(run, lim, "hb-deep-reader", 3000, 8192);
@@ -1083,7 +1424,7 @@ impl E2e {
     /// Manifest store (JUMBF) realising `g` with every claim really signed. An ingredient with
     /// `hash_ok` carries the target's real manifest box hash (only possible for targets
     /// committed before, i.e. larger indices).
-    fn build(&self, g: &Graph) -> c2pa::Result<Vec<u8>> {
+    fn build(&self, g: &Graph, prerec: u8) -> c2pa::Result<Vec<u8>> {
         use c2pa::assertions::{Action, Actions};
         let mut store = hk::Store::new();
         for i in (0..g.len()).rev() {
@@ -1109,7 +1450,29 @@ impl E2e {
                     };
                     HashedUri::new(hk::to_manifest_uri(&label(t)), Some("sha256".into()), &hash)
                 });
-                hk::claim_add_ingredient_v2(&mut c, "ingredient", "image/jpeg", ing.parent, uri)?;
+                match ing.target {
+                    Some(t) if t >= g.len() && prerec > 0 => {
+                        // what the two walkers log for this reference: code + bare label; the
+                        // manifest URI form is recorded as well
+                        let items = vec![
+                            ("ingredient.manifest.missing".to_string(), label(t)),
+                            ("ingredient.manifest.missing".to_string(), hk::to_manifest_uri(&label(t))),
+                        ];
+                        if prerec == 2 {
+                            hk::claim_add_ingredient_v2_with_status(&mut c, "ingredient", "image/jpeg", ing.parent, uri, &items)?;
+                        } else {
+                            let failure: Vec<serde_json::Value> =
+                                items.iter().map(|(c, u)| serde_json::json!({"code": c, "url": u})).collect();
+                            let results: c2pa::ValidationResults = serde_json::from_value(
+                                serde_json::json!({"activeManifest": {"success": [], "informational": [], "failure": failure}}),
+                            )
+                            .expect("validation results");
+                            let rel = if ing.parent { c2pa::Relationship::ParentOf } else { c2pa::Relationship::ComponentOf };
+                            hk20::claim_add_ingredient_v3(&mut c, rel, uri, None, Some(results))?;
+                        }
+                    }
+                    _ => hk::claim_add_ingredient_v2(&mut c, "ingredient", "image/jpeg", ing.parent, uri)?,
+                }
             }
             c.build()?;
             let sig = c2pa::cose_sign::sign_claim(&c.data()?, &self.signer, self.signer.reserve_size(), &self.settings)?;
@@ -1128,9 +1491,9 @@ impl E2e {
     }
 }
 
-fn run_e2e(env: &Env, g: &Graph) -> String {
+fn run_e2e(env: &Env, g: &Graph, prerec: u8) -> String {
     let e = env.e2e.as_ref().expect("e2e env");
-    let jumbf = match e.build(g) {
+    let jumbf = match e.build(g, prerec) {
         Ok(j) => j,
         Err(err) => return format!("build-error:{err:?}").replace(' ', "_"),
     };
